@@ -98,7 +98,7 @@ def cases(tier):
     return cs
 
 
-OPTS = {'quick': dict(max_paths=30000, budget_s=280), 'thorough': dict(max_paths=300000, budget_s=1500)}
+OPTS = {'quick': dict(max_paths=30000, budget_s=900), 'thorough': dict(max_paths=300000, budget_s=1500)}
 
 
 def classify(case, label, values):
@@ -310,7 +310,7 @@ def fresh_interpreter_probe(I, case):
     import json
     import os
     import subprocess
-    code = ("import sys, json; sys.path[:0] = ['/verif', '/repo']; from fv import symx; from fv.props import c20; "
+    code = ("import sys, json, os; sys.path[:0] = ['/verif', os.environ.get('FV_REPO', '/repo')]; from fv import symx; from fv.props import c20; "
             "d = json.loads(sys.stdin.read()); print(json.dumps(c20.pb_probe(symx.ConcreteI(d['values']), d['case'])))")
     p = subprocess.run(['/venv/bin/python', '-c', code], input=json.dumps(dict(values=I.values, case=case)), capture_output=True, text=True,
                        env=dict(os.environ, PYTHONHASHSEED='0'), timeout=300)
@@ -388,7 +388,7 @@ def fresh_interpreter_legal_structure(netname):
     import json
     import os
     import subprocess
-    code = ("import sys, json; sys.path[:0] = ['/verif', '/repo']; from fv.props import c20; "
+    code = ("import sys, json, os; sys.path[:0] = ['/verif', os.environ.get('FV_REPO', '/repo')]; from fv.props import c20; "
             "print(json.dumps(c20.legal_structure(sys.argv[1])))")
     p = subprocess.run(['/venv/bin/python', '-c', code, netname], capture_output=True, text=True, env=dict(os.environ, PYTHONHASHSEED='0'), timeout=300)
     return json.loads(p.stdout.strip().splitlines()[-1])
